@@ -246,8 +246,9 @@ def glue_rules(ctx: Ctx) -> None:
     for st in walk_scope(dec):
         if isinstance(st, ast.Assign) and norm(st.value) in ("sys.modules.get(needs_module)", "sys.modules.get(needs_module, None)"):
             mod_alias[norm(st.targets[0])] = True
+    from .opcodes import path_guards_of
     for c in run_sites:
-        gs = guards_of(mod, c, dec)
+        gs = path_guards_of(mod, c, dec)
         az = Atomizer()
         fs = [(az.compile(gx), pol) for gx, pol in gs]
         imp_atoms = [i for i, a in enumerate(az.atoms) if a == "needs_module in sys.modules" or any(a == f"{al} is None" for al in mod_alias)]
